@@ -352,10 +352,12 @@ def spec_graddrop(it, J, m, n, cfg, cx):
 
 def cfg_graddrop(with_leak):
     def config(cx, m, J):
+        # an arbitrary user-supplied purity transform f (elementwise, shape preserving)
+        userf = V.SymMethod(lambda interp, Pm: mk("user_f", [Pm], Pm.shape_l, Pm.dtype))
         if not with_leak:
-            return {"leak": None}, {"leak": None}
+            return {"leak": None, "f": userf}, {"leak": None}
         lk, ln = sym_vector(cx, "leak", dtype=J.dtype)
-        return {"leak": lk}, {"leak": lk, "llen": ln}
+        return {"leak": lk, "f": userf}, {"leak": lk, "llen": ln}
     return config
 
 
@@ -384,6 +386,8 @@ def mgda_axioms(cx, G: ATen, m):
         V.forall([x, y], z3.And(bil(x, x) >= 0, bil(x, y) * bil(x, y) <= bil(x, x) * bil(y, y), bil(x, y) == bil(y, x)),
                  patterns=[bil(x, y)]),
     ]
+    uniform = U("sdiv", ArrS, U("ones", ArrS, lift(m)), z3.ToReal(lift(m)))
+    ax.append(z3.Implies(lift(m) >= 1, z3.And(vsum(uniform) == 1, nonneg(uniform))))
     for a in ax:
         cx.assume(a, tag="real vector algebra / PSD bilinear form of the Gramian [T, Lean: simplex_segment, mgda_step_descent]")
     return vsum, nonneg, bil
@@ -395,6 +399,7 @@ def mgda_loop():
     def havoc(cx, frame, i):
         a = frame.vars["alpha"]
         frame.vars["alpha"] = ATen(cx.fresh_const("alpha", ArrS), a.shape_l, a.dtype, a.kind)
+        cx.ghost["mgda_alpha_exit"] = frame.vars["alpha"]
 
     def inv(cx, frame, i):
         G = frame.vars["gramian"]
